@@ -468,13 +468,15 @@ def r13_6(ctx):
     prog = ctx.prog
     cs = prog.fn("compile_script")
     oc = Origins(cs)
-    pushes = []
+    allp = []
     for bb, t in cs.calls():
-        if mname(t) == "Vec::push" and cs.arg_name(t["args"][0]) == "expressions":
-            pushes.append((bb, t, oc.operand(t["args"][1])))
-    user = [p for p in pushes if any(n.kind == "field" and n.a == "shell_expression" for n in p[2].walk())]
+        if mname(t) == "Vec::push":
+            allp.append((bb, t, oc.operand(t["args"][1]), cs.arg_name(t["args"][0])))
+    user = [p for p in allp if any(n.kind == "field" and n.a == "shell_expression" for n in p[2].walk())]
     if len(user) != 1:
         raise AnchorError("compile_script: push of the shell expression not found")
+    # the script-lines vector is bound by role: the one the user's expression is pushed onto
+    pushes = [(bb, t, tree) for bb, t, tree, nm in allp if nm == user[0][3]]
     ub = user[0][0]
     # the pushes that can directly follow the user's expression (next push in the CFG, loops cut)
     back = cs.back_edges()
@@ -498,6 +500,8 @@ def r13_6(ctx):
         n = peel(tree)
         if n.kind == "call" and n.kids and peel(n.kids[0]).kind == "const":
             lit = peel(n.kids[0]).a.as_str()
+        elif n.kind == "call" and not n.kids and method_name(n.a) in ("String::new", "Default::default"):
+            lit = ""
         elif n.kind == "const":
             lit = n.a.as_str()
         else:
